@@ -235,7 +235,27 @@ def link_noise(rng, n=3, i=0):
     ep6 = tcpcap.default_ep(230 + i, True, 443)
     items = []
     for k in range(n):
-        kind = rng.choice(["arp", "arp", "lldp", "icmp", "icmp6", "igmp", "runt"])
+        kind = rng.choice(["arp", "arp", "lldp", "icmp", "icmp6", "igmp", "runt", "frag"])
+        if kind == "frag":
+            # IPv4 fragments of a datagram / segment to a watched port: the first fragment (MF set) starts with a transport header that promises more than the frame
+            # holds, the later ones (offset > 0) start in the middle of the payload; or an IPv6 packet with a fragment header
+            proto = rng.choice([6, 17])
+            body = rng.choice([b"\x16\x03\x01\x02\x00\x01\x00\x01\xfc\x03\x03", b"\xc3\x00\x00\x00\x01\x08", b""]) + rng.randbytes(rng.choice([8, 64, 600]))
+            if proto == 6:
+                l4 = ns.tcp_segment(ep.cip, ep.sip, ep.cport, 443, 1000, 2000, 0x18, body + rng.randbytes(700))
+            else:
+                l4 = ns.udp_datagram(ep.cip, ep.sip, ep.cport, 443, body + rng.randbytes(700))
+            which = rng.choice(["first", "middle", "last", "v6"])
+            if which == "v6":
+                pkt = struct.pack("!IHBB16s16s", 0x60000000, 8 + 64, 44, 64, ep6.cip, ep6.sip) + bytes([proto, 0]) + struct.pack("!HI", rng.choice([0x0001, 0x0041, 0x0040]), 7) + l4[:64]
+                fr = ep6.smac + ep6.cmac + b"\x86\xdd" + pkt
+            else:
+                off8, mf, chunk = {"first": (0, 1, l4[:64]), "middle": (8, 1, l4[64:128]), "last": (16, 0, l4[128:160])}[which]
+                hdr = struct.pack("!BBHHHBBH4s4s", 0x45, 0, 20 + len(chunk), 77, (mf << 13) | off8, 64, proto, 0, ep.cip, ep.sip)
+                hdr = hdr[:10] + struct.pack("!H", ns.csum16(hdr)) + hdr[12:]
+                fr = ep.smac + ep.cmac + b"\x08\x00" + hdr + chunk
+            items.append(Item(fr, dir="c", tag="link-noise"))
+            continue
         if kind == "runt":
             # a frame that ends inside its link-layer header (runt, or a capture filter's snap length on one interface): 0..21 octets, every header kind whose
             # decoder wants more than the 14 octets of the Ethernet header (VLAN tags, MPLS, PPPoE, 802.2 LLC/SNAP) and the plain IP types
